@@ -202,27 +202,30 @@ def harnesses(tier: str) -> List[H]:
                                                                      "prop_set", "prop_del"]
     for kind in kinds:
         for d1 in ((0,) if kind == "func" else (0, 1, 2)):
-            params = [I("a0", 0, 2), I("b0", 0, 2), I("s0", 0, 1)]
-            defaults = {"d1": d1, "i0": 0, "a1": 0, "b1": 0, "i1": 0, "p2": True, "p3": True, "q2": True,
-                        "v0": True, "v1": True, "w0": True, "w1": True}
-            has_inv = kind in INV_AROUND
-            if has_inv:
-                params += [I("i0", 0, 1)]
-            if d1 >= 1 and has_inv:
-                params += [I("i1", 0, 1)]
-            if d1 == 2:
-                params += [I("a1", 0, 2 if tier == "thorough" else 1), I("b1", 0, 1)]
-            params += [B("fg"), B("p0"), B("p1"), B("q0"), B("q1")]
-            if d1 == 2:
-                params += [B("p2"), B("q2")] + ([B("p3")] if tier == "thorough" else [])
-            if has_inv:
-                params += [B("v0"), B("w0")] + ([B("v1"), B("w1")] if d1 >= 1 else [])
-            name = "intro_{}{}".format(kind, "" if kind == "func" else "_d%d" % d1)
-            out.append(H(name, bind(run_intro, (kind,), ALL, defaults, [p.name for p in params]), params, tiers=(tier,),
-                         timeout=600,
-                         family="kind={}: pre 0..2, post 0..2, snapshot 0..1, invariants per level 0..1; subclass "
-                                "level {}".format(kind, ["absent", "not overriding", "overriding"][d1]),
-                         family_size=18 * (2 if has_inv else 1) * [1, 2, 8][d1]))
+            a1_values = [None] if d1 != 2 else ([0, 1] if tier == "quick" else [0, 1, 2])
+            for a1 in a1_values:
+                params = [I("a0", 0, 2), I("b0", 0, 2), I("s0", 0, 1)]
+                defaults = {"d1": d1, "i0": 0, "a1": 0 if a1 is None else a1, "b1": 0, "i1": 0, "p2": True, "p3": True,
+                            "q2": True, "v0": True, "v1": True, "w0": True, "w1": True}
+                has_inv = kind in INV_AROUND
+                if has_inv:
+                    params += [I("i0", 0, 1)]
+                if d1 >= 1 and has_inv:
+                    params += [I("i1", 0, 1)]
+                if d1 == 2:
+                    params += [I("b1", 0, 1)]
+                params += [B("fg"), B("p0"), B("p1"), B("q0"), B("q1")]
+                if d1 == 2:
+                    params += [B("p2"), B("q2")] + ([B("p3")] if tier == "thorough" else [])
+                if has_inv:
+                    params += [B("v0"), B("w0")] + ([B("v1"), B("w1")] if d1 >= 1 else [])
+                name = "intro_{}{}{}".format(kind, "" if kind == "func" else "_d%d" % d1, "" if a1 is None else "a%d" % a1)
+                out.append(H(name, bind(run_intro, (kind,), ALL, defaults, [p.name for p in params]), params, tiers=(tier,),
+                             timeout=900,
+                             family="kind={}: pre 0..2, post 0..2, snapshot 0..1, invariants per level 0..1, with/without a "
+                                    "foreign functools.wraps decorator on top; subclass level {}".format(
+                                        kind, ["absent", "not overriding", "overriding with %s own preconditions" % a1][d1]),
+                             family_size=36 * (2 if has_inv else 1) * [1, 2, 4][d1]))
     out.append(H("hook", bind(run_hook, (), ["n", "inv_mask", "via"], {}, ["n", "inv_mask", "via"]),
                  [I("n", 1, 4), I("inv_mask", 0, 15), I("via", 0, 2)], tiers=(tier,), timeout=200,
                  family="chains of 1..4 classes created through DBCMeta(...), type(base)(...) or types.new_class, any "
